@@ -224,6 +224,33 @@ def _build(b):
     b.expect("bit-write-refusals", "Read-Modify-Write refuses bit 32 of a DINT", RMW, rmw(TI_DINT, [(32, True)]), ("raise", "RequestError"))
     b.expect("bit-write-refusals", "Read-Modify-Write refuses a negative bit", RMW, rmw(TI_DINT, [(-1, True)]), ("raise", "RequestError"))
     b.expect("bit-write-refusals", "Read-Modify-Write refuses a structure tag", RMW, rmw(TI_UDT, []), ("raise", "RequestError"))
+    # bit numbers are confined to the type's width: every width x bit numbers around its borders (a wider bit would be cut off
+    # the masks and reported as written; past bit 63 the mask encoder fails while the packet is built)
+    for tname, width in (("SINT", 1), ("INT", 2), ("DINT", 4), ("LINT", 8), ("USINT", 1), ("UDINT", 4)):
+        ti_ = {"tag_type": "atomic", "data_type_name": tname, "data_type": tname, "instance_id": 5}
+        for bit in sorted({-1, 0, 1, 8 * width - 1, 8 * width, 8 * width + 1, 31, 32, 63, 64, 70}):
+            for val in (True, False):
+                k_, m_ = rmw(ti_, [(bit, val)])
+                inside = 0 <= bit < 8 * width
+                label = f"{tname} bit {bit} <- {val}"
+                if k_ == "unknown":
+                    b.rec("bit-range", label, RMW, "unknown", False, "", f"{m_}")
+                elif inside:
+                    orm_, andm_ = ((1 << bit) if val else 0), ((1 << (8 * width)) - 1) & ~(0 if val else (1 << bit))
+                    if k_ != "return":
+                        b.rec("bit-range", label, RMW, "check", False, "accepted", f"{k_} {m_}")
+                    else:
+                        b.expect("bit-range", f"{label}: frame", RMW, req(m_), connected_frame(b"\x07\x00" + b"\x4e" + PATH + width.to_bytes(2, "little") + orm_.to_bytes(width, "little") + andm_.to_bytes(width, "little")), norm=_mask_timeout)
+                else:
+                    b.rec("bit-range", f"{label}: refused", RMW, "check", (k_, m_) == ("raise", "RequestError"), "raise RequestError", f"{k_} {m_ if k_ != 'return' else 'accepted'}")
+    # a shared packet: a bit refused for one request leaves the packet, and the bits accepted for the others, as they were
+    k, m = rmw(TI_DINT, [(3, True), (5, False)])
+    if k == "return":
+        k2, r_ = b.call(m, "set_bit", 32, True, 2)
+        b.rec("bit-write-refusals", "a refused bit on a packet that already holds bits: RequestError", RMW, "unknown" if k2 == "unknown" else "check", (k2, r_) == ("raise", "RequestError"), "raise RequestError", f"{k2} {r_}")
+        if k2 != "unknown":
+            b.fields("bit-write-refusals", "a refused bit leaves the shared packet without an error and with the accepted requests", RMW, m, {"error": None, "_request_ids": [0, 1]})
+            b.expect("bit-write-refusals", "frame of the shared packet after a refused bit", RMW, req(m), connected_frame(b"\x07\x00" + b"\x4e" + PATH + b"\x04\x00" + (0x08).to_bytes(4, "little") + (0xFFFFFFDF).to_bytes(4, "little")), norm=_mask_timeout)
     k, m = b.new(PL, "ReadModifyWriteRequestPacket", 7, "bad", TI_DINT, 13, False)
     if k == "return":
         b.rec("bit-write-refusals", "Read-Modify-Write with an unbuildable path carries an error", RMW, "check", bool(m.__dict__.get("error")), "error set", f"error={m.__dict__.get('error')!r}")
